@@ -38,7 +38,7 @@ fn arb_lane() -> impl Strategy<Value = u8> {
     prop_oneof![10 => 0u8..NREAL as u8, 1 => NREAL as u8..LANES.len() as u8]
 }
 
-fn arb_op(nprogs: usize) -> impl Strategy<Value = Op> {
+fn arb_op() -> impl Strategy<Value = Op> {
     prop_oneof![
         2 => (arb_small_cap(), arb_small_cap()).prop_map(|(in_cap, out_cap)| Op::Attach { in_cap, out_cap }),
         6 => (any::<u16>(), arb_lane()).prop_map(|(r, lane)| Op::Link { r, lane }),
@@ -49,7 +49,8 @@ fn arb_op(nprogs: usize) -> impl Strategy<Value = Op> {
         1 => (any::<u16>(), 0i32..4).prop_map(|(r, k)| Op::Cmd { r, lane: 2, body: format!("@remove(key:{})", k) }),
         1 => any::<u16>().prop_map(|r| Op::Cmd { r, lane: 2, body: "@clear".to_string() }),
         2 => any::<u16>().prop_map(|r| Op::Cmd { r, lane: 4, body: String::new() }),
-        5 => (any::<u16>(), 0..nprogs.max(1)).prop_map(|(r, p)| Op::Cmd { r, lane: 5, body: p.to_string() }),
+        // the program is chosen by index later ("P<n>" is resolved against the number of programs)
+        5 => (any::<u16>(), any::<u16>()).prop_map(|(r, p)| Op::Cmd { r, lane: 5, body: format!("P{}", p) }),
         1 => any::<u16>().prop_map(|r| Op::Cmd { r, lane: 6, body: "1".to_string() }),
         24 => arb_sched_op(),
         6 => (any::<u16>(), arb_nbytes()).prop_map(|(r, n)| Op::Read { r, n }),
@@ -64,9 +65,97 @@ fn arb_fault() -> impl Strategy<Value = Op> {
     ]
 }
 
+pub const T_VOTE: u64 = 300;
+
+fn arb_request() -> impl Strategy<Value = Op> {
+    prop_oneof![
+        5 => (any::<u16>(), arb_lane()).prop_map(|(r, lane)| Op::Link { r, lane }),
+        2 => (any::<u16>(), arb_lane()).prop_map(|(r, lane)| Op::Sync { r, lane }),
+        2 => (any::<u16>(), arb_lane()).prop_map(|(r, lane)| Op::Unlink { r, lane }),
+        1 => any::<u16>().prop_map(|r| Op::Cmd { r, lane: 6, body: "1".to_string() }),
+    ]
+}
+
+fn arb_pump_all() -> impl Strategy<Value = Op> {
+    (any::<u16>(), prop_oneof![3 => Just(usize::MAX), 1 => 1usize..40]).prop_map(|(r, n)| Op::Pump { r, n })
+}
+
+fn arb_small_poll() -> impl Strategy<Value = Op> {
+    (1usize..4).prop_map(|k| Op::Poll { k })
+}
+
+fn arb_request_step() -> impl Strategy<Value = Vec<Op>> {
+    (arb_request(), proptest::option::weighted(0.7, arb_pump_all()), proptest::option::weighted(0.6, arb_small_poll())).prop_map(|(rq, pump, poll)| {
+        let mut v = vec![rq];
+        v.extend(pump);
+        v.extend(poll);
+        v
+    })
+}
+
+fn arb_attach_small() -> impl Strategy<Value = Op> {
+    (arb_small_cap(), arb_small_cap()).prop_map(|(in_cap, out_cap)| Op::Attach { in_cap: in_cap.max(40), out_cap })
+}
+
+/// "Stop-vote window" (see raw.rs): quiet for about the inactivity timeout with read-only traffic
+/// (attachments, commands for a lane that does not exist) so that only some tasks have voted, then
+/// attachments and requests with few polls around a terminator. The agent is ended from the inside by a
+/// control-lane program consisting of `Stop` (command body "STOP" is replaced by its index).
+fn arb_window() -> impl Strategy<Value = Vec<Op>> {
+    let read_only = prop_oneof![
+        2 => arb_attach_small().prop_map(|a| vec![a]),
+        3 => (any::<u16>(), arb_small_poll()).prop_map(|(r, p)| vec![Op::Cmd { r, lane: 6, body: "1".to_string() }, Op::Pump { r, n: usize::MAX }, p]),
+        1 => Just(vec![]),
+    ];
+    let terminator = prop_oneof![
+        6 => any::<u16>().prop_map(|r| vec![Op::Cmd { r, lane: 5, body: "STOP".to_string() }, Op::Pump { r, n: usize::MAX }]),
+        1 => Just(vec![Op::Stop]),
+        2 => (any::<u16>(), 0u8..2).prop_map(|(r, lane)| vec![Op::Cmd { r, lane, body: String::new() }, Op::Pump { r, n: usize::MAX }]),
+        2 => prop_oneof![Just(T_VOTE - 1), Just(T_VOTE), Just(T_VOTE + 1)].prop_map(|ms| vec![Op::Advance { ms }]),
+        1 => Just(vec![]),
+    ];
+    let after = prop_oneof![
+        3 => arb_request_step(),
+        2 => arb_pump_all().prop_map(|p| vec![p]),
+        3 => arb_small_poll().prop_map(|p| vec![p]),
+        1 => arb_attach_small().prop_map(|a| vec![a]),
+    ];
+    (
+        (0u64..T_VOTE, read_only, prop_oneof![Just(-1i64), Just(0), Just(1), Just(50), Just(150)], any::<bool>(), 1usize..6),
+        proptest::collection::vec(arb_attach_small(), 0..3),
+        proptest::collection::vec(arb_request_step(), 1..4),
+        proptest::option::weighted(0.5, arb_small_poll()),
+        terminator,
+        proptest::collection::vec(after, 0..5),
+    )
+        .prop_map(|((a, read_only, d, split, k1), attaches, requests, poll_before_end, terminator, after)| {
+            let mut v = vec![Op::Settle, Op::Advance { ms: a }];
+            v.extend(read_only);
+            let b = (T_VOTE as i64 - a as i64 + d).max(1) as u64;
+            if split && b > 2 {
+                v.push(Op::Advance { ms: b / 2 });
+                v.push(Op::Poll { k: 1 });
+                v.push(Op::Advance { ms: b - b / 2 });
+            } else {
+                v.push(Op::Advance { ms: b });
+            }
+            v.push(Op::Poll { k: k1 });
+            v.extend(attaches);
+            for r in requests {
+                v.extend(r);
+            }
+            v.extend(poll_before_end);
+            v.extend(terminator);
+            for a in after {
+                v.extend(a);
+            }
+            v
+        })
+}
+
 pub fn arb_case(max_ops: usize) -> impl Strategy<Value = Case> {
     let progs = proptest::collection::vec(proptest::collection::vec(arb_act(), 1..6), 1..4);
-    (
+    let head = (
         any::<u64>(),
         prop_oneof![Just(1usize), Just(2), Just(16)],
         arb_cap(),
@@ -77,18 +166,38 @@ pub fn arb_case(max_ops: usize) -> impl Strategy<Value = Case> {
         progs,
         any::<bool>(),
     )
-        .prop_flat_map(move |(seed, aq, lin, lout, budget, inactive, prune, programs, stop_at_end)| {
-            let n = programs.len();
-            (
-                Just((seed, aq, lin, lout, budget, inactive, prune, programs, stop_at_end)),
-                proptest::collection::vec(arb_op(n), 1..max_ops),
-                proptest::collection::vec((any::<u16>(), arb_fault()), 0..2),
-            )
-        })
-        .prop_map(|((seed, aq, lin, lout, budget, inactive, prune, mut programs, stop_at_end), mut ops, faults)| {
+        .prop_map(|t| t);
+    (
+        head,
+        proptest::collection::vec(arb_op(), 1..max_ops),
+        proptest::collection::vec((any::<u16>(), arb_fault()), 0..2),
+        proptest::option::weighted(0.3, (arb_window(), prop_oneof![3 => Just(1usize), 2 => Just(2), 1 => Just(4)], 1usize..4)),
+    )
+        .prop_map(|((seed, mut aq, lin, lout, budget, mut inactive, prune, mut programs, stop_at_end), mut ops, faults, window)| {
+            // no prop_flat_map: proptest's flat-map shrinking can spin for minutes without running a case
+            let nprogs = programs.len().max(1);
+            for op in ops.iter_mut() {
+                if let Op::Cmd { lane: 5, body, .. } = op {
+                    if let Some(p) = body.strip_prefix('P').and_then(|x| x.parse::<u16>().ok()) {
+                        *body = pick_index(p, nprogs).to_string();
+                    }
+                }
+            }
             for (pos, f) in faults {
                 let at = pick_index(pos, ops.len() + 1);
                 ops.insert(at, f);
+            }
+            if let Some((w, queue, keep)) = window {
+                inactive = T_VOTE;
+                aq = queue;
+                ops.truncate(ops.len().min(keep * 8));
+                ops.retain(|o| !matches!(o, Op::Stop | Op::Advance { .. }));
+                programs.push(vec![Act::Stop]);
+                let stop_idx = (programs.len() - 1).to_string();
+                ops.extend(w.into_iter().map(|o| match o {
+                    Op::Cmd { r, lane, body } if body == "STOP" => Op::Cmd { r, lane, body: stop_idx.clone() },
+                    o => o,
+                }));
             }
             let mut next = 1i64;
             for p in programs.iter_mut() {
@@ -159,6 +268,32 @@ struct Obs {
     done_at_checkpoint: bool,
     done_at_end: bool,
     result: Option<Result<(), String>>,
+    livelock: bool,
+    /// stop-vote model (see raw.rs)
+    req_while_vote: bool,
+    coord_while_write_voted: bool,
+}
+
+/// `Sim::settle` with a budget: a system that keeps waking itself (never becomes idle) is reported
+/// instead of spinning until the watchdog fires.
+fn settle_bounded(sim: &mut Sim) -> bool {
+    let start = sim.polls;
+    loop {
+        let mut progress = 0usize;
+        for r in sim.remotes.iter_mut() {
+            progress += r.pump(usize::MAX);
+        }
+        progress += sim.poll(10_000);
+        for r in sim.remotes.iter_mut() {
+            progress += r.read(usize::MAX);
+        }
+        if progress == 0 && (sim.is_done() || !sim.is_woken()) {
+            return true;
+        }
+        if sim.polls - start > 300_000 {
+            return false;
+        }
+    }
 }
 
 fn execute(case: &Case) -> Obs {
@@ -170,6 +305,12 @@ fn execute(case: &Case) -> Obs {
         sim.run_until_idle();
         let mut wakes = vec![];
         let mut dropped: Vec<bool> = vec![];
+        let mut livelock = false;
+        let t_vote = case.params.inactive_timeout_ms;
+        let (mut now_ms, mut last_write_act, mut last_read_act) = (0u64, 0u64, 0u64);
+        let (mut write_voted, mut read_voted, mut http_voted) = (false, false, false);
+        let mut seen_written: Vec<usize> = vec![];
+        let (mut req_while_vote, mut coord_while_write_voted) = (false, false);
         for op in &case.ops {
             match op {
                 Op::Read { r, n } if !sim.remotes.is_empty() => {
@@ -194,10 +335,65 @@ fn execute(case: &Case) -> Obs {
                     dropped[idx] = true;
                     sim.remotes[idx].disconnect();
                 }
+                Op::Settle => {
+                    livelock |= !settle_bounded(&mut sim);
+                }
                 op => apply_op(&mut sim, &LANES, op).await,
             }
+            if livelock {
+                break;
+            }
+            // ---- stop-vote model (op granularity)
+            if let Op::Advance { ms } = op {
+                now_ms += ms;
+            }
+            if matches!(op, Op::Attach { .. }) {
+                last_read_act = now_ms;
+                read_voted = false;
+            }
+            seen_written.resize(sim.remotes.len(), 0);
+            for (ri, r) in sim.remotes.iter().enumerate() {
+                let written = r.sent.iter().filter(|s| s.3.is_some()).count();
+                for s in r.sent.iter().filter(|s| s.3.is_some()).skip(seen_written[ri]) {
+                    let ghost = LANES[NREAL..].contains(&s.0.as_str());
+                    // makes the write task schedule a write
+                    let coord = match s.1 {
+                        Req::Link | Req::Unlink => true,
+                        Req::Sync => ghost,
+                        Req::Command(_) => false,
+                    };
+                    // reaches the write task at all (a real lane answers syncs and commands with events)
+                    let write_act = coord || !ghost;
+                    let running = !sim.is_done();
+                    let votes = [write_voted, read_voted, http_voted].iter().filter(|x| **x).count();
+                    if running && votes >= 1 && votes < 3 {
+                        req_while_vote = true;
+                    }
+                    if running && coord && write_voted {
+                        coord_while_write_voted = true;
+                    }
+                    last_read_act = now_ms;
+                    read_voted = false;
+                    if write_act {
+                        last_write_act = now_ms;
+                        write_voted = false;
+                    }
+                }
+                seen_written[ri] = written;
+            }
+            if matches!(op, Op::Poll { .. } | Op::Settle | Op::Read { .. }) && !sim.is_done() {
+                if !sim.remotes.is_empty() && now_ms - last_write_act >= t_vote {
+                    write_voted = true;
+                }
+                if now_ms - last_read_act >= t_vote {
+                    read_voted = true;
+                }
+                if now_ms >= t_vote {
+                    http_voted = true;
+                }
+            }
         }
-        sim.settle();
+        livelock |= !settle_bounded(&mut sim);
         let done_at_checkpoint = sim.is_done();
         let mut at_cp = vec![];
         for r in sim.remotes.iter_mut() {
@@ -206,7 +402,7 @@ fn execute(case: &Case) -> Obs {
         }
         if case.stop_at_end {
             sim.stop();
-            sim.settle();
+            livelock |= !settle_bounded(&mut sim);
         }
         dropped.resize(sim.remotes.len(), false);
         let done_at_end = sim.is_done();
@@ -231,6 +427,9 @@ fn execute(case: &Case) -> Obs {
             done_at_checkpoint,
             done_at_end,
             result: sim.result.clone(),
+            livelock,
+            req_while_vote,
+            coord_while_write_voted,
         }
     })
 }
@@ -263,6 +462,10 @@ pub fn check(case: &Case) -> Verdict {
         }
         eprintln!("trace {:?}", obs.trace);
         eprintln!("done_cp {} done_end {} result {:?}", obs.done_at_checkpoint, obs.done_at_end, obs.result);
+    }
+    if obs.livelock {
+        v.fail("sim:livelock:system-never-idle", "the agent kept waking itself for 300000 polls without any input: the harness gave up waiting for quiescence");
+        return v;
     }
     if let Some(Err(e)) = &obs.result {
         v.fail("sim:agent-task-error", format!("the agent task ended with an error: {}", e));
@@ -528,6 +731,13 @@ pub fn check(case: &Case) -> Verdict {
     }
     v.class_if(nt, "special-or-synced-queued-behind-busy-writer");
     v.class_if(!obs.wakes.is_empty(), "writer-parked-observed");
+    v.class_if(obs.req_while_vote, "request-while-stop-vote-outstanding(model)");
+    v.class_if(obs.coord_while_write_voted, "write-scheduled-while-write-task-voted(model)");
+    v.class_if(
+        obs.coord_while_write_voted && obs.remotes.iter().any(|r| r.reason.as_deref() == Some("Ok(AgentTimedOut)")),
+        "write-scheduled-in-vote-window-and-stop-was-unanimous",
+    );
+    v.class_if(obs.trace.iter().any(|(_, e)| matches!(e, Ev::Stop)), "agent-ran-on_stop");
     v.class_if(any_extra, "repeated-link");
     v.class_if(coalesced, "value-coalesced");
     v.class_if(any_ghost, "unknown-lane-request");
